@@ -18,6 +18,12 @@ def log(*a):
     print(*a, flush=True)
 
 
+class HarnessPanic(Exception):
+    def __init__(self, cmd, msg):
+        Exception.__init__(self, msg)
+        self.cmd, self.msg = cmd, msg
+
+
 def sh(cmd, timeout=1800, env=None, cwd=None, check=True):
     e = dict(os.environ)
     if env:
@@ -26,6 +32,10 @@ def sh(cmd, timeout=1800, env=None, cwd=None, check=True):
         p = subprocess.run(cmd, shell=isinstance(cmd, str), stdout=subprocess.PIPE, stderr=subprocess.STDOUT, text=True, timeout=timeout, env=e, cwd=cwd)
     except subprocess.TimeoutExpired:
         raise ToolError("timeout: %s" % (cmd if isinstance(cmd, str) else " ".join(cmd)))
+    if check and ((p.returncode == 101 and "WV-PANIC" in p.stdout) or p.returncode in (-6, -11, 134, 139)) and not isinstance(cmd, str) and os.path.basename(cmd[0]) == "wv":
+        # the code under test panicked (or overflowed its stack) where no producer caught it: a finding, not a tool failure
+        msg = next((l for l in p.stdout.splitlines() if l.startswith("WV-PANIC")), "process died with status %d" % p.returncode)
+        raise HarnessPanic(" ".join(cmd), msg)
     if check and p.returncode != 0:
         raise ToolError("command failed (%d): %s\n%s" % (p.returncode, cmd if isinstance(cmd, str) else " ".join(cmd), p.stdout[-4000:]))
     return p.stdout
@@ -474,7 +484,10 @@ def main():
             rfn = getattr(props, "replay_" + a.prop, None) or props.replay_generic
             rfn(ctx, json.load(open(a.replay)))
         else:
-            fn(ctx)
+            try:
+                fn(ctx)
+            except HarnessPanic as e:
+                ctx.report("harness-call", "implementation-panicked-outside-a-guarded-call", [e.msg], {"command": e.cmd})
         sys.exit(ctx.finish())
     except ToolError as e:
         log("TOOL-ERROR: " + str(e))
